@@ -92,6 +92,8 @@ func (s d18Step) String() string {
 		return fmt.Sprintf("c%d close how=%s%s", s.C, s.How, t)
 	case "tick":
 		return fmt.Sprintf("tick %d s", s.N)
+	case "session":
+		return "session check (checkServerProtocolSession)"
 	}
 	return s.K
 }
@@ -384,6 +386,7 @@ type d18Env struct {
 	viol     *d18Violation
 	inClose  bool
 	textHook func(p *d18Peer, cmd *d18Cmd, el []string) // nil in engine D
+	lastInit map[int]*d18Peer
 }
 
 const d18WatcherIdx = 99
@@ -419,7 +422,7 @@ func d18NewEnv(c *d18Case, opts d18Opts) (*d18Env, error) {
 	if err != nil {
 		return nil, err
 	}
-	e := &d18Env{c: c, opts: opts, inst: inst, now: d18Epoch, peers: map[int]*d18Peer{}, nextPort: 41000}
+	e := &d18Env{c: c, opts: opts, inst: inst, now: d18Epoch, peers: map[int]*d18Peer{}, nextPort: 41000, lastInit: map[int]*d18Peer{}}
 	e.info.Classes = map[string]bool{}
 	d := inst.slock.GetOrNewDB(0)
 	d.currentTime, d.checkTimeoutTime, d.checkExpriedTime = e.now, e.now, e.now
@@ -1073,6 +1076,18 @@ func (e *d18Env) registered(cid int) *d18Peer {
 	return nil
 }
 
+// successor: the connection that announced the client id most recently (INIT), if it is alive. Kept by
+// the harness, on purpose not read from slock.clients: whether the server registered the announcement is
+// part of what is being checked. If the most recent announcer has ended, nothing is demanded (an older
+// live announcer was displaced from the table and the entry went away with its displacer).
+func (e *d18Env) successor(cid int) *d18Peer {
+	p := e.lastInit[cid]
+	if p == nil || !p.opened || p.dead || p.closing {
+		return nil
+	}
+	return p
+}
+
 type d18LateWatch struct {
 	queued map[int]int
 	reg    map[int]*d18Peer
@@ -1083,7 +1098,7 @@ func (e *d18Env) lateBefore() *d18LateWatch {
 	for _, owner := range w.queued {
 		cid := e.peers[owner].cid
 		if _, ok := w.reg[cid]; !ok {
-			w.reg[cid] = e.registered(cid)
+			w.reg[cid] = e.successor(cid)
 		}
 	}
 	return w
@@ -1107,7 +1122,7 @@ func (e *d18Env) lateAfter(w *d18LateWatch) {
 	for _, r := range reqs {
 		owner := e.peers[w.queued[r]]
 		s := w.reg[owner.cid]
-		if s == nil || s != e.registered(owner.cid) {
+		if s == nil || s != e.successor(owner.cid) {
 			e.info.LateDropped++
 			e.info.Classes["late-reply-dropped-no-successor"] = true
 			continue
@@ -1127,7 +1142,7 @@ func (e *d18Env) lateAfter(w *d18LateWatch) {
 			}
 		}
 		if !got && d18StrictSuccessor {
-			e.fail("C18:late-reply:lost-although-successor-connected", "request #%d (%v) of the dead connection c%d (client id %d) ended while connection c%d was registered under the same client id, but no reply for it arrived on any connection that announced this id",
+			e.fail("C18:late-reply:lost-although-successor-connected", "request #%d (%v) of the dead connection c%d (client id %d) ended while connection c%d was the live connection that had announced the same client id most recently, but no reply for it arrived on any connection that announced this id",
 				r, e.sent[r].Cmd, owner.idx, owner.cid, s.idx)
 		}
 	}
@@ -1228,6 +1243,7 @@ func (e *d18Env) stepSend(st d18Step) {
 		}
 		if c.Op == "init" {
 			p.cid = c.Cid
+			e.lastInit[c.Cid] = p // the harness's own record of who announced the id last (not slock.clients)
 		}
 		what := c.Op
 		if c.isWill() {
@@ -1501,6 +1517,32 @@ func (e *d18Env) afterClose(p *d18Peer, st d18Step, pre *d18Snap) {
 	}
 }
 
+// stepSession runs what Server.checkProtocolFreeCommandQueue runs every 120 s of wall time: the session
+// check that trims the proxy list of a connection which adopted more than four proxies of earlier
+// connections of its client id. Every handler is parked, as between two commands of a quiet server.
+func (e *d18Env) stepSession() {
+	most := 0
+	for _, i := range e.order {
+		p := e.peers[i]
+		if bp, ok := p.proto.(*BinaryServerProtocol); ok && bp != nil && !p.dead {
+			bp.glock.Lock()
+			if n := len(bp.proxys); n > most {
+				most = n
+			}
+			bp.glock.Unlock()
+		}
+	}
+	if most > 4 {
+		e.info.Classes["session-check-trims-adopted-proxies"] = true
+	}
+	if most > 2 {
+		e.info.Classes["connection-adopted-two-or-more-proxies"] = true
+	}
+	e.logf("   largest proxy list before the check: %d", most)
+	_ = e.inst.slock.checkServerProtocolSession()
+	e.settle()
+}
+
 // tick: the bodies of LockDB.checkTimeOut / checkExpried for every elapsed second and shard, run in the
 // harness goroutine; after every sweep call the handlers that were woken are waited for.
 func (e *d18Env) stepTick(n int) {
@@ -1701,6 +1743,8 @@ func d18Execute(c *d18Case, opts d18Opts) (run *d18Run, err error) {
 			e.stepClose(st)
 		case "tick":
 			e.stepTick(st.N)
+		case "session":
+			e.stepSession()
 		}
 		e.info.Steps++
 		if e.viol == nil && !e.info.NeedChild {
